@@ -302,6 +302,7 @@ def check(prop: str, tier: str, seed: int, runs: int | None, budget_s: float | N
                 "counters": agg["info"],
                 "real_components": mod.REAL,
                 "stub_components": mod.STUB,
+                "regression_cases_of_fixed_findings_executed": sum(1 for f in findings if f["status"] == "fixed"),
                 "known_findings_reproduced": known_reproduced,
                 "known_findings_hit_by_exploration": folded,
                 "workers": workers,
